@@ -1166,6 +1166,10 @@ class ColumnsView:
     def sym_contains(self, it, col):
         return self.table.has(it, col)
 
+    @property
+    def values(self):
+        return self         # `name in df.columns.values` is the same membership test
+
     def sym_iter(self, it):
         return list(self.table.cols)
 
